@@ -1,0 +1,49 @@
+//go:build verif
+
+package cron
+
+import (
+	"sync/atomic"
+
+	"github.com/ngicks/genericcontainer/heapimpl"
+	"github.com/ngicks/gokugen/def"
+	sortabletask "github.com/ngicks/gokugen/internal/sortable_task"
+	"github.com/ngicks/gokugen/mutator"
+	"github.com/ngicks/mockable"
+)
+
+// VerifNewCronStore is NewCronStore with an injected clock:
+// the stock constructor reads the clock before one can be set.
+// Verification builds only.
+func VerifNewCronStore(entries []*Entry, clock mockable.Clock) (*CronStore, error) {
+	c := &CronStore{
+		insertionOrderCount: new(atomic.Uint64),
+		schedule: heapimpl.NewFilterableHeapHooks[*wrappedTask](
+			sortabletask.Less[*wrappedTask],
+			sortabletask.MakeHeapMethodSet[*wrappedTask](),
+		),
+		mutators: mutator.DefaultMutatorStore,
+		entries:  make(map[serializable]*Entry),
+		clock:    clock,
+	}
+
+	if err := c.updateTask(entries, nil); err != nil {
+		return nil, err
+	}
+
+	return c, nil
+}
+
+// VerifPending returns the pending tasks in heap-array order (cloned) and the number of entries.
+func (c *CronStore) VerifPending() (pending []def.Task, entries int) {
+	c.mu.Lock()
+	defer c.mu.Unlock()
+	cloned := c.schedule.Clone()
+	cloned.Filter(func(innerSlice *[]*wrappedTask) {
+		for _, e := range *innerSlice {
+			pending = append(pending, e.Task.Clone())
+		}
+		*innerSlice = nil
+	})
+	return pending, len(c.entries)
+}
